@@ -53,8 +53,11 @@ def case(task):
         for N in Ns:
             states = {}
             for cached_first in (False, True):
+                # the Riemann-first instance is also fed by components
+                # (gxx.., kxx.., betax..): the other documented input style
                 rel, st, (X, Y, Z), inp = gc.build_core(
-                    desc, seed, p, N, with_T=not vacuum, vacuum=vacuum)
+                    desc, seed, p, N, with_T=not vacuum, vacuum=vacuum,
+                    components=cached_first)
                 if cached_first is False:
                     ref = gc.ref_chunks(st, fields.T0, X, Y, Z, ref_fn)
                     S = max(float(ref['scale'].max()), 1e-3)
